@@ -29,3 +29,7 @@ def items(tier, seed):
         ['flat4'], th, force='windows', fargs={'values': [1, 2, 3]},
         job_open={'dur': [0, 2], 'out': ['raise']}, top_open={},
         k=2 if th else 1, bound=2 if th else 1)
+    yield from spaces.mk(
+        ['flat5s'], th, force='windows', fargs={'values': [1, 2, 3]},
+        job_open={'dur': [0, 2], 'out': ['raise']}, top_open={}, k=1,
+        bound=3 if th else 2)
